@@ -169,7 +169,7 @@ theorem openF_mem : ∀ (ms : Marks) (fs : FStack) (G : List MTree) (x : Mark ×
 def InlOk (S : Schema) (D : ToDom) (univ : List Mark) (k : Node) : Prop :=
   (match k with
    | .text .. => True
-   | .leaf t _ _ => (S.nodeType t).isInline = true
+   | .leaf t _ m => m = [] ∨ (S.nodeType t).isInline = true
    | .elem .. => False) ∧ ∀ m ∈ k.marks, MOk D univ m
 
 theorem annotate_inl (S : Schema) (D : ToDom) (univ : List Mark) (k : Node) (h : InlOk S D univ k) :
@@ -177,8 +177,9 @@ theorem annotate_inl (S : Schema) (D : ToDom) (univ : List Mark) (k : Node) (h :
   cases k with
   | text s m => exact ⟨_, _, by rw [annotate]; rfl⟩
   | leaf t a m =>
-    have : (S.nodeType t).isInline = true := h.1
-    exact ⟨_, _, by rw [annotate, this]; rfl⟩
+    rcases h.1 with hm | hin
+    · subst hm; exact ⟨_, _, by rw [annotate]; rfl⟩
+    · exact ⟨_, _, by rw [annotate, hin]; rfl⟩
   | elem t a m kids => exact absurd h.1 (by simp)
 
 /-- **`serialize_fragment` emits the forest `build`** -/
